@@ -82,6 +82,14 @@ Lemma generated_ser_role :
   forallb (fun f => env_conforms_role decl_ser (gen_env f) (spec_env f)) all_feats = true.
 Proof. vm_compute. reflexivity. Qed.
 
+Lemma generated_request_side :
+  forallb (fun f => request_side_conforms (gen_env f) (spec_env f)) all_feats = true.
+Proof. vm_compute. reflexivity. Qed.
+
+Lemma generated_response_side :
+  forallb (fun f => response_side_conforms (gen_env f) (spec_env f)) all_feats = true.
+Proof. vm_compute. reflexivity. Qed.
+
 Lemma generated_de_role :
   forallb (fun f => env_conforms_role decl_de (gen_env f) (spec_env f)) all_feats = true.
 Proof. vm_compute. reflexivity. Qed.
